@@ -534,14 +534,40 @@ class Interp:
     def ex_BoolOp(self, e, env, mod):
         is_and = isinstance(e.op, ast.And)
         v = None
-        for x in e.values:
+        for k, x in enumerate(e.values):
             v = self.ev(x, env, mod)
+            fv = force(v)
+            if isinstance(fv, SBool) and k + 1 < len(e.values):
+                # symbolic first operand: evaluate the rest under the assumption that it is reached (nested exploration, merged),
+                # so that `a and b` / `a or b` do not fork the enclosing path; falls back to forking if the rest may raise
+                merged = self._boolop_rest(e, k + 1, fv, is_and, env, mod)
+                if merged is not _NO_MERGE:
+                    return merged
             t = truth(v)
             if is_and and not t:
                 return v
             if not is_and and t:
                 return v
         return v
+
+    def _boolop_rest(self, e, start, first, is_and, env, mod):
+        from .values import explore, CTX
+        guard = first.t if is_and else z3.Not(first.t)
+        rest = ast.BoolOp(op=e.op, values=e.values[start:]) if len(e.values) - start > 1 else e.values[start]
+        outer = CTX.path
+        try:
+            outs = explore(lambda: self.ev(rest, Env(parent=env), mod), base=outer.all_conds() + [guard], want_local_conds=True)
+        except OutOfSubset:
+            return _NO_MERGE
+        if any(o.kind == 'exc' for o in outs):
+            return _NO_MERGE
+        if not outs:
+            return first            # the rest is unreachable
+        alts = [(z3.And(*o.conds) if o.conds else z3.BoolVal(True), o.value) for o in outs]
+        rest_val = ops.merge(alts)
+        if isinstance(force(rest_val), (bool, SBool)):
+            return ops.s_and(first, rest_val) if is_and else ops.s_or(first, rest_val)
+        return ops.merge([(guard, rest_val), (z3.Not(guard), first)])
 
     def ex_UnaryOp(self, e, env, mod):
         v = self.ev(e.operand, env, mod)
@@ -1062,6 +1088,7 @@ class Interp:
 
 
 FSTR_HOLE = object()
+_NO_MERGE = object()
 
 
 def qualprefix(env):
